@@ -311,6 +311,55 @@ func VerifH_C04_extra_extensions_and_signature() {
 	vr.Cover("done")
 }
 
+// C04: an extra extension overrides exactly the generated extension of its own type —
+// the other generated extensions (here the two key identifiers and the key usage) are
+// still emitted once each and parse back to the template's values.
+// verif: covers=done
+func VerifH_C04_extra_extension_overrides_only_its_own_type() {
+	c04Stubs()
+	tmpl, pub := c04Template()
+	tmpl.KeyUsage = KeyUsageDigitalSignature
+	tmpl.SubjectKeyId = []byte{1, 2}
+	tmpl.AuthorityKeyId = []byte{3, 4}
+	b := vr.U8("overrideByte")
+	var ext pkix.Extension
+	kind := vr.Pick(vr.Int("overrides", 0, 2))
+	switch kind {
+	case 0: // subject key id: OCTET STRING
+		ext = pkix.Extension{Id: oidExtensionSubjectKeyId, Value: []byte{4, 1, b}}
+	case 1: // authority key id: SEQUENCE { [0] keyid }
+		ext = pkix.Extension{Id: oidExtensionAuthorityKeyId, Value: []byte{0x30, 3, 0x80, 1, b}}
+	case 2: // key usage
+		ext = pkix.Extension{Id: oidExtensionKeyUsage, Critical: true, Value: []byte{3, 2, 0, b & 0x80}}
+	}
+	tmpl.ExtraExtensions = []pkix.Extension{ext}
+	c := c04Issue(tmpl, nil, pub)
+	count := func(id asn1.ObjectIdentifier) int {
+		n := 0
+		for _, e := range c.Extensions {
+			if e.Id.Equal(id) {
+				n++
+			}
+		}
+		return n
+	}
+	vr.Assert(count(oidExtensionSubjectKeyId) == 1 && count(oidExtensionAuthorityKeyId) == 1 && count(oidExtensionKeyUsage) == 1, "each extension type appears exactly once")
+	if kind == 0 {
+		vr.Assert(bytes.Equal(c.SubjectKeyId, []byte{b}), "the overriding subject key id wins")
+	} else {
+		vr.Assert(bytes.Equal(c.SubjectKeyId, tmpl.SubjectKeyId), "the template's subject key id is kept")
+	}
+	if kind == 1 {
+		vr.Assert(bytes.Equal(c.AuthorityKeyId, []byte{b}), "the overriding authority key id wins")
+	} else {
+		vr.Assert(bytes.Equal(c.AuthorityKeyId, tmpl.AuthorityKeyId), "the template's authority key id is kept")
+	}
+	if kind != 2 {
+		vr.Assert(c.KeyUsage == tmpl.KeyUsage, "the template's key usage is kept")
+	}
+	vr.Cover("done")
+}
+
 // c04TBS extracts the to-be-signed bytes (first element of the outer SEQUENCE).
 func c04TBS(der []byte) []byte {
 	var c certificate
